@@ -190,5 +190,7 @@ def run(chk, F, tier):
             "refcell", "split", "string-range", "string-insert", "string-remove", "string-truncate", "textrange-new", "rowan-offset", "rowan-range", "div", "slice-len")
     n, _, _ = panicsurface.audit(chk, F, "R02d", "C02", entries, lambda b: b.crate == "emmylua_parser" and "_rust_i18n" not in b.id, skip_kinds=skip)
     chk.floor("explicit panic sites", n, 6)
+    from rules import nesting
+    nesting.check_pairing(chk, F, "R02e", "C02")
     chk.explanation = ("Progress summaries (must-consume) to a fixpoint, natural-loop cycle search avoiding progress blocks, SCCs of the "
                        "grammar call graph with left-recursion and depth-guard tests, audit of explicit panics.")
